@@ -29,8 +29,12 @@ func TestC09Rapid(t *testing.T) {
 		}
 		// a second native token; native tokens may carry ordinary bank metadata (display name, units)
 		natives := []string{"stake", "umin"}
+		// ... and a native coin whose name is a bridged token's L2 denom with the hash in upper case: another denom
+		// for the bank, and not a token that came from L1
+		lookAlike := "l2/" + strings.ToUpper(strings.TrimPrefix(tcL2Denom(tc, "uinit"), "l2/"))
+		natives = append(natives, lookAlike)
 		for _, u := range tc.users {
-			l2.Fund(u.Addr, coinOf("umin", 500))
+			l2.Fund(u.Addr, coinOf("umin", 500), coinOf(lookAlike, 300))
 		}
 		if rapid.Bool().Draw(rt, "nativeMetadata") {
 			l2.BK.SetDenomMetaData(l2.Ctx, banktypes.Metadata{Base: "umin", Display: "min", Name: "min", Symbol: "MIN", DenomUnits: []*banktypes.DenomUnit{{Denom: "umin", Exponent: 0}, {Denom: "min", Exponent: 6}}})
@@ -259,7 +263,7 @@ func TestC09Rapid(t *testing.T) {
 				}
 			case "withdraw":
 				from := tc.users[rapid.IntRange(0, 4).Draw(rt, "wf")]
-				denom := rapid.SampledFrom([]string{tcL2Denom(tc, "uinit"), tcL2Denom(tc, "uinit"), tcL2Denom(tc, "uusdc"), "stake", "umin", "l2/unknown", "uinit"}).Draw(rt, "wdenom")
+				denom := rapid.SampledFrom([]string{tcL2Denom(tc, "uinit"), tcL2Denom(tc, "uinit"), tcL2Denom(tc, "uusdc"), "stake", "umin", "l2/unknown", "uinit", lookAlike}).Draw(rt, "wdenom")
 				bal := l2.Balance(from.Addr, denom)
 				var amt math.Int
 				switch rapid.SampledFrom([]string{"part", "part", "all", "over", "zero"}).Draw(rt, "wamt") {
